@@ -376,11 +376,31 @@ func runCheck(id, tier string) int {
 		}(w)
 	}
 	wg.Wait()
-	for _, e := range errs {
+	// A worker in trouble (stuck, crashed, could not do its part) is never a
+	// verdict.  But what healthy workers found and a fresh process confirms is
+	// still reported; only if there is nothing of that kind is the run exit 2.
+	var trouble []string
+	for w, e := range errs {
 		if e != nil {
-			fmt.Fprintf(os.Stderr, "check %s: harness trouble (exit 2, not a verdict): %v\n", id, e)
-			return 2
+			trouble = append(trouble, e.Error())
+			if results[w] == nil {
+				results[w] = simkit.NewResult(&simkit.Job{Property: id, Engine: engines[w]})
+				results[w].Engine = engines[w]
+			}
 		}
+	}
+	anyViolation := false
+	for _, r := range results {
+		if len(r.Violations) > 0 {
+			anyViolation = true
+		}
+	}
+	if len(trouble) > 0 && !anyViolation {
+		fmt.Fprintf(os.Stderr, "check %s: harness trouble (exit 2, not a verdict): %s\n", id, strings.Join(trouble, "\n"))
+		return 2
+	}
+	if len(trouble) > 0 {
+		fmt.Fprintf(os.Stderr, "check %s: note: %d worker(s) had trouble (not a verdict): %s\n", id, len(trouble), tail(strings.Join(trouble, " | "), 1500))
 	}
 	// merge
 	tot := simkit.NewResult(&simkit.Job{Property: id, Engine: d.Engine})
@@ -430,7 +450,7 @@ func runCheck(id, tier string) int {
 	})
 	known := loadFindings()
 	seen := map[string]bool{}
-	reported, knownHit := 0, 0
+	reported, knownHit, unconfirmedInTrouble := 0, 0, 0
 	for _, v := range viols {
 		key := v.Invariant + "|" + v.Signature
 		if seen[key] {
@@ -461,6 +481,11 @@ func runCheck(id, tier string) int {
 		if isKnown {
 			continue
 		}
+		if !confirmed && len(trouble) > 0 {
+			fmt.Printf("unconfirmed in a run with harness trouble, not reported: %s/%s: %s\n", v.Property, v.Invariant, v.Signature)
+			unconfirmedInTrouble++
+			continue
+		}
 		reported++
 		fmt.Printf("violation %s/%s: %s\n  %s\n  replay confirmed in a fresh process: %v\n", v.Property, v.Invariant, v.Signature, v.Message, confirmed)
 		fmt.Printf("VIOLATION property=%s replay=%s\n", id, v.Replay)
@@ -487,6 +512,9 @@ func runCheck(id, tier string) int {
 	}
 	if reported > 0 {
 		return 1
+	}
+	if len(trouble) > 0 {
+		return 2
 	}
 	return 0
 }
